@@ -154,7 +154,7 @@ func (e *Engine) copySlice(s *State, dst, src *SliceV) Value {
 		return c.BV(0, 64)
 	}
 	if src.IsStr || e.isByteSlice(s, src) {
-		if !e.symLen && !n.IsConst() {
+		if !(e.symLen || s.symMem) && !n.IsConst() {
 			n = c.BV(e.concretize(s, n, "copy length"), 64)
 		}
 		sa := e.arrOf(s, src)
@@ -193,7 +193,7 @@ func (e *Engine) appendSlice(s *State, a, b *SliceV, ty types.Type) Value {
 	if b.Len.IsConst() && b.Len.Val == 0 {
 		return a
 	}
-	if isByteType(et) && !e.symLen && !b.Len.IsConst() {
+	if isByteType(et) && !(e.symLen || s.symMem) && !b.Len.IsConst() {
 		b = &SliceV{Base: b.Base, Str: b.Str, IsStr: b.IsStr, Off: b.Off, Cap: b.Cap, Len: c.BV(e.concretize(s, b.Len, "append length"), 64)}
 	}
 	need := c.Add(a.Len, b.Len)
